@@ -13,6 +13,7 @@ fn main() {
         "hist" => hist::run(&args),
         "crash" => crash::run(&args),
         "conc" => conc::run(&args),
+        "pathfam" => search::path_family(&args),
         "fault" => fault::run(&args),
         other => {
             eprintln!("unknown subcommand {other:?}");
